@@ -34,6 +34,8 @@ Verdict(r) ==
   ELSE IF \E j \in 1..Len(r.out) : ~Has(r.ini, r.out[j].k) /\ Mat(r.out[j].val) # ProductValue(Mat(r.fin[Find(r.fin, r.out[j].k)].val), Mat(r.ini[Find(r.ini, r.matchKey)].val))
        THEN "C44:operator-is-not-later-times-earlier"
   ELSE IF \E j \in 1..Len(r.out) : ~PointOk(r, r.out[j]) THEN "C44:error-propagation-rule"
+  ELSE IF r.mode = "inplace" /\ Keys(r.outLive) # Keys(r.out) THEN "C44:live-object-points-differ-from-stored"
+  ELSE IF \E j \in 1..Len(r.outLive) : ~PointOk(r, r.outLive[j]) THEN "C44:live-object-answers-differ-from-product"
   ELSE IF ~r.restOk THEN "C44:outside-block-modified"
   ELSE IF r.mode = "path" /\ ~r.iniUntouched THEN "C44:initial-archive-modified-with-explicit-path"
   ELSE "ok"
